@@ -34,6 +34,7 @@ type FuncSpec struct {
 	Modifies   []Expr
 	ModSrc     []string
 	ModCond    []Expr // per modifies entry: optional entry-state condition (nil: unconditional)
+	ModAtExit  []bool // per modifies entry: location named through the results (modifies@exit)
 	HasMod     bool
 	FrameProps []string // properties the frame (modifies) obligations are claimed for
 	Loops      map[int]*LoopSpec
@@ -52,6 +53,7 @@ type FuncSpec struct {
 	AllocBound *Clause
 	Dispatch   []string // interface method spec: the closed list of implementing types
 	MayPanic   bool
+	TypedPtrs  bool // assume distinct instances of one struct type never overlap
 	AllocFresh bool // results are freshly allocated
 	Splits     []*Split
 	File       string
@@ -230,7 +232,7 @@ func ParseFile(path, defaultPkg string) (*File, error) {
 					return nil, err
 				}
 				cur.Ensures = append(cur.Ensures, c)
-			case "modifies":
+			case "modifies", "modifies@exit":
 				cur.HasMod = true
 				if len(props) > 0 {
 					cur.FrameProps = props
@@ -254,6 +256,7 @@ func ParseFile(path, defaultPkg string) (*File, error) {
 						cur.Modifies = append(cur.Modifies, e)
 						cur.ModSrc = append(cur.ModSrc, m)
 						cur.ModCond = append(cur.ModCond, cond)
+						cur.ModAtExit = append(cur.ModAtExit, kind == "modifies@exit")
 					}
 				}
 			case "loop":
@@ -304,6 +307,8 @@ func ParseFile(path, defaultPkg string) (*File, error) {
 				cur.Pure = true
 			case "nosafety":
 				cur.NoSafety = true
+			case "typedptrs":
+				cur.TypedPtrs = true
 			case "maypanic":
 				cur.MayPanic = true
 			case "allocfresh":
